@@ -310,7 +310,15 @@ class Fn(object):
         k = self.calls
         self.calls += 1
         b = self.behaviours[min(k, len(self.behaviours) - 1)]
-        w.rec("call", fn=self.name, k=k, args=jsonable(args), kwargs=jsonable(kwargs))
+        extra = {}
+        if self.name.endswith(".cancelfn") and args:
+            # a cancel function: note the state, at this very instant, of the future it is being consulted about
+            import models
+            org = models.origin(jsonable(args[0]))
+            subj = w.futs.get(org[1][:-3]) if org and isinstance(org[1], str) and org[1].endswith(".fn") else None
+            if subj is not None:
+                extra["subject_state"] = subj._state
+        w.rec("call", fn=self.name, k=k, args=jsonable(args), kwargs=jsonable(kwargs), **extra)
         try:
             r = self._do(b, k, args, kwargs)
         except Exception as e:
